@@ -42,6 +42,11 @@ type propCfg struct {
 
 var ncpu = runtime.NumCPU()
 
+var (
+	goCachesOnce sync.Once
+	goCaches     []string
+)
+
 func cfgFor(id string) (propCfg, bool) {
 	c, ok := props[id]
 	return c, ok
@@ -124,6 +129,18 @@ func env(extra ...string) []string {
 		e = append(e, kv)
 	}
 	e = append(e, "GOFLAGS=-mod=mod", "GOPROXY=off", "GOSUMDB=off", "GOTOOLCHAIN=local")
+	// children run with a scratch HOME: pin the module and build caches to the real ones
+	goCachesOnce.Do(func() {
+		cmd := exec.Command("go", "env", "GOMODCACHE", "GOCACHE")
+		cmd.Env = e
+		if out, err := cmd.Output(); err == nil {
+			f := strings.Fields(string(out))
+			if len(f) == 2 {
+				goCaches = []string{"GOMODCACHE=" + f[0], "GOCACHE=" + f[1]}
+			}
+		}
+	})
+	e = append(e, goCaches...)
 	return append(e, extra...)
 }
 
@@ -721,7 +738,7 @@ func check(id, tier string, only int, onlyStream string, writeEvidence bool) int
 	for k, v := range a.notes {
 		cov["note_"+k] = v
 	}
-	if writeEvidence {
+	if writeEvidence && os.Getenv("VERIF_NO_EVIDENCE") == "" {
 		ev := map[string]interface{}{
 			"property_id": id, "tier": tier, "seed": seed, "level": cfg.level,
 			"coverage": cov, "assumptions": cfg.assume, "wall_s": wall, "violations": len(unknown),
